@@ -363,6 +363,13 @@ Definition mreopen (cf : mcfg) (s : mstate) : mstate :=
   {| roots := roots s2; nodes := nodes s2; nrc := nrc s2; kv := kv s2; rov := []; aov := []; kvov := []; mqueue := [];
      mcid := 0; next_id := next_id s2; locked := []; readers := []; to_deref := [] |}.
 
+(* process crash (page cache survives) + open: every processed commit is in the log and is replayed;
+   everything still queued - deferred commits included - is lost with the overlays, locks and the
+   pending-dereference bookkeeping *)
+Definition mcrash (s : mstate) : mstate :=
+  {| roots := roots s; nodes := nodes s; nrc := nrc s; kv := kv s; rov := []; aov := []; kvov := []; mqueue := [];
+     mcid := 0; next_id := next_id s; locked := []; readers := []; to_deref := [] |}.
+
 (* number of value entries of the multitree column: roots and nodes *)
 Definition num_entries (s : mstate) : N := N.of_nat (length (roots s) + length (nodes s)).
 
